@@ -68,7 +68,10 @@
 //!      absolute ordinals were asserted; the oracle has since been relaxed to assert only the ORDER given by
 //!      ordinal_position (the tree counts from 0, the standard from 1), so this probe is no longer meaningful.
 //!   Repair candidate /verif/fixes/C49-view-rebinds-current-catalog.diff (re-plans a view's defining statement
-//!   against the current catalog when a SQL statement refers to the view): FIXRESULT-PLACEHOLDER
+//!   against the current catalog when a SQL statement refers to the view): with it
+//!   (mutrun) the regression case passes and a quick run WITHOUT the known-finding exclusion passes (2400 cases, 183
+//!   non-trivial, 0 excluded). A view that can no longer be planned (base dropped / columns changed) then fails with
+//!   "table not found" when used as a relation; DDL on its name keeps working.
 use datafusion::prelude::{SessionConfig, SessionContext};
 use proptest::prelude::*;
 use serde::{Deserialize, Serialize};
